@@ -12,7 +12,8 @@ fi
 ovl=()
 if [ -n "${VERIF_SUBST:-}" ]; then
   mkdir -p build/overlay
-  python3 - "$VERIF_SUBST" > "build/overlay/chainmc.$id.json" <<'PY'
+  ovf="build/overlay/chainmc.$id.$$.json"   # private per invocation: mutant runs are concurrent
+  python3 - "$VERIF_SUBST" > "$ovf" <<'PY'
 import json,sys
 rep={}
 for pair in sys.argv[1].split(','):
@@ -20,11 +21,15 @@ for pair in sys.argv[1].split(','):
         a,b=pair.split('=',1); rep[a.strip()]=b.strip()
 print(json.dumps({"Replace":rep}))
 PY
-  ovl=(-overlay "build/overlay/chainmc.$id.json")
+  ovl=(-overlay "$ovf")
 fi
 cp -f "$REPO/go.sum" go.sum 2>/dev/null
-bin="build/chainmc.$id${VERIF_SUBST:+.subst}"
+bin="build/chainmc.$id${VERIF_SUBST:+.subst.$$}"
 if ! go build "${ovl[@]}" -o "$bin" ./chainmc >&2; then
   echo "chainmc: build failed" >&2; exit 2
+fi
+if [ -n "${VERIF_SUBST:-}" ]; then
+  "$bin" -prop "$id" -tier "$tier" ${VERIF_NO_EVIDENCE:+-no-evidence}; rc=$?
+  rm -f "$bin" "$ovf"; exit $rc
 fi
 exec "$bin" -prop "$id" -tier "$tier" ${VERIF_NO_EVIDENCE:+-no-evidence}
